@@ -116,8 +116,9 @@ Fixpoint ignore_shadowed (l : list import) : list import :=
 (* ---------------------------------------------------------------------------------------------- *)
 (* Blocks                                                                                          *)
 
-(* PythonStatement.is_comment_or_blank / string-literal statement / anything else *)
-Inductive skind := KBlank | KString | KCode.
+(* PythonStatement.is_comment_or_blank / str-literal statement / bytes-literal statement (also
+   is_comment_or_blank_or_string_literal) / anything else *)
+Inductive skind := KBlank | KString | KBytes | KCode.
 Record stmt := mkStmt { s_kind : skind; s_text : str }.
 
 (* an import block: identity (Python object identity of the transformation object), input.startpos.lineno,
